@@ -719,27 +719,33 @@ func execute(c C08Case, attempt int) result {
 		x.tearing = true
 		x.mu.Unlock()
 		x.stopNoise.Store(true)
+		// The adaptation goes first: closing the listener also fails the Start calls of plugins
+		// still queued behind a blocked accept loop. A wedged adaptation is abandoned after 10 s
+		// (its goroutines leak, fx removes the scratch directory when Stop gets through).
 		done := make(chan struct{})
-		go func() {
-			defer close(done)
-			for _, pl := range x.plugs {
-				if pl.launched.Load() {
-					select {
-					case <-pl.started:
-					case <-time.After(2 * time.Second):
-						continue
-					}
-					if pl.p.Stub != nil {
-						pl.p.Stub.Stop()
-					}
-				}
-			}
-			r.Stop()
-		}()
+		go func() { defer close(done); r.Stop() }()
 		select {
 		case <-done:
 		case <-time.After(10 * time.Second):
-			// a wedged adaptation is abandoned (its goroutines leak); the scratch dir goes later
+		}
+		var swg sync.WaitGroup
+		for _, pl := range x.plugs {
+			if pl.launched.Load() {
+				swg.Add(1)
+				go func(pl *plug) {
+					defer swg.Done()
+					<-pl.started // Start returns at the latest when the stub's registration timeout expires
+					if pl.p.Stub != nil {
+						pl.p.Stub.Stop()
+					}
+				}(pl)
+			}
+		}
+		sdone := make(chan struct{})
+		go func() { swg.Wait(); close(sdone) }()
+		select {
+		case <-sdone:
+		case <-time.After(2 * time.Second):
 		}
 		cur.CompareAndSwap(x, nil)
 	}
